@@ -100,8 +100,10 @@ def extract_abbreviation(line: str, pos: int=None, options={}) -> ExtractedAbbre
             if not stack or stack.pop() != BRACE_PAIRS[ch]:
                 # unexpected brace
                 break
-        elif Brackets.SquareR in stack or Brackets.CurlyR in stack:
-            # respect all characters inside attribute sets or text nodes
+        elif Brackets.SquareR in stack or Brackets.CurlyR in stack or \
+                (opt.get('type') == 'stylesheet' and Brackets.RoundR in stack):
+            # respect all characters inside attribute sets, text nodes or
+            # stylesheet function arguments
             scanner.pos -= 1
             continue
         elif is_at_html_tag(scanner) or not is_abbreviation(ch):
